@@ -29,6 +29,8 @@ type Unit struct {
 	// Stateful programs (package-level variables or init functions) get a fresh process per case: that is what
 	// "compiled and run by the standard Go toolchain" means for a function that reads the initial globals.
 	Stateful bool
+	// VMSrc, when set, is what the compiler under test gets instead of Src (binding self-test only).
+	VMSrc string
 }
 
 type UnitFunc struct {
